@@ -52,6 +52,26 @@ CHECKS = {
              "SameNamesAtEnd); all 12 first imports, all 132 ordered pairs and seeded full permutations run in fresh interpreters, and TLC validates each interpreter's "
              "module-execution trace against the model and judges success and the public-name / object-identity table.",
         design="5 (C20)", technique="TLA+ model checking (TLC) of the extracted import graph + trace validation of real interpreter import traces"),
+    "C01": dict(
+        text="TLC model-checks the tempo accumulator / lookup machine TempoMap.tla (every map, tick, event order of a bounded scope) against the same exact BigNat bound "
+             "that judges the traces (half a microsecond + 1 ns per traversed segment, tick 0 = time 0); in-domain terminal states are replayed as iso-scaled real charts "
+             "whose microseconds the code must (and does) reproduce exactly; seeded wide-domain maps (0.001..10^6 BPM, resolution 1..10^5, up to 12/64 segments, ticks <= 10^8, "
+             "an event of every kind and direct queries at every tick of interest) are judged by TLC with harness-supplied floor witnesses that TLC verifies.",
+        design="5 (C01)", technique="TLA+ model checking (TLC) + spec->code replay + TLC trace validation with exact limb arithmetic"),
+    "C11": dict(
+        text="TLC model-checks TempoMap.tla invariants C11 (every emitted event equals the un-hinted lookup; the hint is the history of earlier events, written in any order) and "
+             "HintTotal (every tick x every hint); usable terminal states are replayed with all ticks x all hints 0..len+1 through the public query; seeded charts, sorted and with "
+             "sections reversed / swapped / shuffled, are judged by TLC evaluating Props!C11V (invisible hints, governing index, ValueError beyond, stored = un-hinted).",
+        design="5 (C11)", technique="TLA+ model checking (TLC) over hints and event histories + spec->code replay + TLC trace validation"),
+    "C12": dict(
+        text="TLC model-checks monotonicity / strictness invariants of TempoMap.tla; terminal states and seeded dense ascending sweeps around every tempo change (extreme 0.001 <-> 10^6 BPM jumps, "
+             "sub-microsecond ticks, events of every kind in two tracks) are judged by TLC evaluating Props!C12V on the tick-sorted observations (limb comparison; strict when n*res <= 3*10^10).",
+        design="5 (C12)", technique="TLA+ model checking (TLC) + spec->code replay + TLC trace validation with limb comparison"),
+    "C15": dict(
+        text="TLC model-checks that every corrupted input of TempoMap.tla's scope (ticks in any order, zero tempo / resolution, missing tick-0 tempo or signature) reaches a reject branch before anything governed by the fault is emitted; "
+             "all terminal states are replayed; every single corruption (drop/shift tick-0 tempo or signature, duplicate / swap / regress a tempo tick, zero tempo at each position, resolution 0) of seeded charts, and a zero tempo x event kind x placement table, "
+             "are parsed and queried and judged by TLC evaluating Props!C15V.",
+        design="5 (C15)", technique="TLA+ model checking (TLC) of reject branches + fault enumeration replayed into the parser + TLC trace validation"),
 }
 
 PENDING = {}
